@@ -15,7 +15,7 @@ VERIF = os.path.dirname(HERE)
 PY = "/venv/bin/python"
 CLAIMED = ["C01", "C02", "C03", "C05", "C09", "C10", "C11", "C12", "C13", "C15", "C17", "C18", "C20"]
 CONFIGS = [("0", 16), ("12345", 1), ("random", 5)]      # (PYTHONHASHSEED, workers)
-RUNS = {"C15": 12, "C17": 12, "C11": 30, "C12": 30}
+RUNS = {"C15": 30, "C17": 12, "C11": 30, "C12": 30}
 
 
 def digests(cid, seed, n, hashseed, workers):
